@@ -53,6 +53,59 @@ def oracle_timeouts(scen, obs):
     return None
 
 
+def helper_part(ctx):
+    """helper programs that fail, or die from a signal, after having produced output: the pass must not report the
+    candidate as OK, and (for the passes that copy the helper's output over the file) must leave the file alone"""
+    import os
+    import shutil
+    import tempfile
+    from pathlib import Path
+    from vlib import VERIF
+    from cvise.passes.abstract import PassResult, ProcessEventNotifier
+    from cvise.passes.indent import IndentPass
+    from cvise.passes.clex import ClexPass
+    from cvise.passes.clang import ClangPass
+    tool = str(VERIF / 'tools' / 'standins' / 'failing_helper')
+    probes = [('indent', lambda: IndentPass('regular', {'clang-format': tool}), 'inplace', {0}, 0),
+              ('indent-final', lambda: IndentPass('final', {'clang-format': tool}), 'inplace', {0}, 0),
+              ('clex', lambda: ClexPass('rm-toks-1', {'clex': tool}), 'stdout', {51}, 0),
+              ('clang', lambda: ClangPass('remove-unused-function', {'clang_delta': tool}), 'stdout', {0}, 1)]
+    codes = [0, 1, 2, 51, 71, 255, -9, -11, -6, -15]
+    for name, mk, mode, okcodes, state0 in probes:
+        for code in codes:
+            d = Path(tempfile.mkdtemp(prefix='helper-', dir=ctx.scratch))
+            try:
+                f = d / 'a.c'
+                before = 'int  a ;\nint b;\n'
+                f.write_text(before)
+                (d / 'scen.json').write_text(json.dumps({'mode': mode, 'text': 'int a;\n', 'code': code}))
+                os.environ['HELPER_SCEN'] = str(d / 'scen.json')
+                p = mk()
+                p.user_clang_delta_std = None
+                st = p.new(str(f))
+                try:
+                    res, _ = p.transform(str(f), st if st is not None else state0, ProcessEventNotifier(None))
+                except Exception as e:  # noqa
+                    ctx.report(f'pass-raises-on-failing-helper:{name}', f'{name}: helper status {code}: {type(e).__name__}: {e}', {'kind': 'helper', 'pass': name, 'code': code})
+                    continue
+                after = f.read_text()
+                ctx.count()
+                sc = {'kind': 'helper', 'pass': name, 'code': code}
+                if code not in okcodes and res == PassResult.OK:
+                    ctx.report(f'failed-helper-run-reported-OK:{name}', f'{name}: the helper ended with status {code} after writing output, transform returned OK (the candidate would be tested and could be committed)', sc)
+                elif code not in okcodes and mode == 'stdout' and after != before:
+                    ctx.report(f'output-of-failed-helper-used:{name}', f'{name}: helper status {code}, file rewritten', sc)
+                elif code in okcodes and res != PassResult.OK:
+                    ctx.report(f'successful-helper-run-not-OK:{name}', f'{name}: helper status {code}, result {res}', sc)
+                left = sorted(x.name for x in d.iterdir() if x.name not in ('a.c', 'scen.json'))
+                if left:
+                    ctx.report(f'scratch-file-left-by-failing-helper-run:{name}', f'{name}: helper status {code}: {left}', sc)
+                ctx.nontrivial(('helper', name, code))
+            finally:
+                os.environ.pop('HELPER_SCEN', None)
+                shutil.rmtree(d, ignore_errors=True)
+
+
 def nontriv(scen, obs):
     if scen.get('faults') and obs['played']:
         return D.scen_key(scen)
@@ -117,13 +170,36 @@ def timeouts_over_rounds(rng):
             'mode': 'pass', 'contract': False, 'rank': list(range(len(texts))), 'fuel': 400, 'expect_disk': [2]}
 
 
+def timeouts_interleaved(rng):
+    """one round in which hanging candidates alternate with candidates that fail quickly: the MAX_TIMEOUTS-th timeout ends
+    the round whatever finished in between, so the interesting candidate far behind it is never reached"""
+    mx = rng.choice([2, 3])
+    n = rng.choice([1, 2, 3])
+    m = 2 * mx + n + 4
+    texts = ['x' * (m + 3)] + ['y' * (j + 1) for j in range(m)]
+    p = {'name': 'p0', 'maxT': None, 'new': {'0': 0}, 'adv': {f'0.{j}': j + 1 for j in range(m - 1)}, 'aos': {},
+         'tr': {f'0.{j}': ['OK', j + 1, j] for j in range(m)}}
+    return {'texts': texts, 'files': ['a.c'], 'disk': [0], 'passes': [p], 'groups': {'first': [], 'main': [0], 'last': []},
+            'cfg': {'cacheOn': False}, 'consts': {'MAX_TIMEOUTS': mx, 'MAX_EXTRA_DIRS': 25000},
+            'test': {**{str(j + 1): (0 if j == m - 1 else 1) for j in range(m)}, '0': 0},
+            'faults': {f'0.{j + 1}': 'timeout' for j in range(0, m - 1, 2)}, 'N': n, 'p_done': rng.choice([0.0, 1.0, 0.5]),
+            'wait_policy': rng.choice(['first', 'random']), 'mode': 'pass', 'contract': False, 'rank': list(range(m + 1)), 'fuel': 400,
+            'expect_disk': [0], 'expect_sig': 'round-continues-after-max-timeouts'}
+
+
 def oracle_carries_on(scen, obs):
+    if 'expect_sig' in scen and obs['outcome'] == 'ok' and obs['disk'] != scen['expect_disk']:
+        return scen['expect_sig']
     if 'expect_disk' in scen and obs['outcome'] == 'ok' and obs['disk'] != scen['expect_disk']:
         return 'interesting-candidate-dropped-after-a-timeout'
     return None
 
 
 def run(ctx):
+    if ctx.replay and json.load(open(ctx.replay)).get('kind') == 'helper':
+        helper_part(ctx)
+        print('replayed ->', 'fails' if ctx.violations else 'holds')
+        return 1 if ctx.violations else 0
     if ctx.replay:
         D.replay_drv(ctx, json.load(open(ctx.replay)), [oracle, oracle_timeouts, oracle_carries_on])
         return 1 if ctx.violations else 0
@@ -131,9 +207,11 @@ def run(ctx):
     diffs = []
     rows = D.sweep(ctx, scens(ctx, 500 if ctx.tier == 'quick' else 8000) + timeout_scens(ctx, 60 if ctx.tier == 'quick' else 600)
                    + [hang_then_pass(ctx.rng) for _ in range(40 if ctx.tier == 'quick' else 400)]
-                   + [timeouts_over_rounds(ctx.rng) for _ in range(30 if ctx.tier == 'quick' else 300)], [oracle, oracle_timeouts, oracle_carries_on], diffs, nontriv)
+                   + [timeouts_over_rounds(ctx.rng) for _ in range(30 if ctx.tier == 'quick' else 300)]
+                   + [timeouts_interleaved(ctx.rng) for _ in range(30 if ctx.tier == 'quick' else 300)], [oracle, oracle_timeouts, oracle_carries_on], diffs, nontriv)
     ctx.sample({'scenario_key': D.scen_key(rows[4][0]), 'faults': rows[4][0]['faults'], 'consts': rows[4][0]['consts'], 'observed': rows[4][2]})
 
+    helper_part(ctx)
     # real pool, real scripts: exit!=0, SIGKILL, hang past the timeout, forking, megabytes of output, bytes that are not UTF-8
     import worldlib as W
     from concurrent.futures import ThreadPoolExecutor
